@@ -467,7 +467,7 @@ def space_analysis(pid, script_lines, impl, model, meta):
             cur["cfg"] = (int(t[1]), t[2] == "1", int(t[3]), t[5] if len(t) > 5 else "u8")
         elif t[0] == "mk":
             fam = t[2].split(":")[0]
-            cur["mk"][int(t[1])] = {"fam": fam, "line": i, "vals": t[3:], "cfg": cur.get("cfg"), "src": None}
+            cur["mk"][int(t[1])] = {"fam": fam, "line": i, "vals": t[3:], "cfg": cur.get("cfg"), "src": None, "rle": t[2].endswith(":rle")}
             if fam in ("rsn", "rsw"):
                 cur["mk"][int(t[1])]["src"] = int(t[3])
             if fam == "da":
@@ -497,8 +497,12 @@ def space_analysis(pid, script_lines, impl, model, meta):
             n, m, nlev, b, pfs = None, None, None, None, None
             if fam in ("qwt", "wt", "hqwt", "hwt"):
                 vals = [int(x) for x in info["vals"] if x]
-                n = len(vals)
-                m = max(vals) if vals else 0
+                if info.get("rle"):
+                    n = sum(vals[1::2])
+                    m = max(vals[0::2]) if vals else 0
+                else:
+                    n = len(vals)
+                    m = max(vals) if vals else 0
                 b, pfs = info["cfg"][0], info["cfg"][1]
             if pid == "C14" and fam in ("qwt", "wt") and n:
                 if fam == "qwt":
@@ -534,6 +538,8 @@ def space_analysis(pid, script_lines, impl, model, meta):
                 comps = 8
                 if fam in ("qwt", "hqwt", "wt", "hwt"):
                     vals = [int(x) for x in info["vals"] if x]
+                    if info.get("rle"):
+                        vals = vals[0::2]
                     mm = max(vals) if vals else 0
                     L = (bitlen(mm) + 1) // 2 if fam in ("qwt", "hqwt") else bitlen(mm)
                     comps = 8 + 12 * L * (5 if info["cfg"][1] else 1)
@@ -558,31 +564,54 @@ def entropy_analysis(script_lines, impl, model):
             case = int(t[1])
         elif t[0] == "mk" and t[2].split(":")[0] in ("hqwt", "hwt"):
             fam = t[2].split(":")[0]
-            cur_vals = [int(x) for x in t[3:] if x]
+            nums = [int(x) for x in t[3:] if x]
+            if t[2].endswith(":rle"):
+                cur_vals = {}
+                for a in range(0, len(nums) - 1, 2):
+                    cur_vals[nums[a]] = cur_vals.get(nums[a], 0) + nums[a + 1]
+            else:
+                cur_vals = {}
+                for v in nums:
+                    cur_vals[v] = cur_vals.get(v, 0) + 1
         elif t[0] == "dump" and cur_vals is not None and i < len(impl):
             m = re.search(r"lens:\[([0-9,]*)\]", impl[i])
             if not m:
                 continue
             lens = [int(x) for x in m.group(1).split(",") if x]
-            n = len(cur_vals)
+            n = sum(cur_vals.values())
             if n == 0:
                 continue
             per = 2 if fam == "hqwt" else 1
             bits = per * sum(lens)
-            freq = {}
-            for v in cur_vals:
-                freq[v] = freq.get(v, 0) + 1
+            freq = cur_vals
             # bits <= n*H0 + per*n  <=>  2^(bits - per*n) * prod f^f <= n^n   (exact integers)
             checks += 1
             e = bits - per * n
-            lhs = 1
-            for f in freq.values():
-                lhs *= f ** f
-            rhs = n ** n
-            ok = (lhs << e) < rhs if e >= 0 else lhs < (rhs << (-e))
+            ok = None
+            if n > 100000:
+                # 60-digit decimal arithmetic (correctly rounded ln): decide unless the margin is
+                # within 1e-30 relative, then fall back to the exact integer comparison
+                import decimal
+                ctx = decimal.Context(prec=60)
+                ln2 = ctx.ln(decimal.Decimal(2))
+                nh0 = decimal.Decimal(0)
+                for f in freq.values():
+                    nh0 = ctx.add(nh0, ctx.multiply(decimal.Decimal(f), ctx.divide(ctx.ln(ctx.divide(decimal.Decimal(n), decimal.Decimal(f))), ln2)))
+                margin = ctx.subtract(ctx.add(nh0, decimal.Decimal(per * n)), decimal.Decimal(bits))
+                tol = decimal.Decimal(n) * decimal.Decimal(10) ** -30
+                if margin > tol:
+                    ok = True
+                elif margin < -tol:
+                    ok = False
+            if ok is None:
+                lhs = 1
+                for f in freq.values():
+                    lhs *= f ** f
+                rhs = n ** n
+                ok = (lhs << e) < rhs if e >= 0 else lhs < (rhs << (-e))
             if len(freq) == 1:
                 ok = bits <= per * n  # H0 = 0: one fragment per symbol is allowed
-            mm = max(cur_vals)
+            mm = max(cur_vals.keys())
             plain = n * ((bitlen(mm) + 1) // 2) * 2 if fam == "hqwt" else n * bitlen(mm)
             rec = {"line": i, "case": case, "request": req, "fam": fam, "model": "", "spec": ""}
             if not ok:
